@@ -474,6 +474,50 @@ func genC14(o genOpts) error {
 		msgs = append(msgs, randBytes(r, 1+r.Intn(64)))
 	}
 
+	// ---- a decoded principal is a value of its own: the buffer it was decoded from is reused (here: overwritten) afterwards
+	// and the signer / verifier stays what it was; and a did:key string is spelled in base58btc only — a verifier parser
+	// accepts no other multibase spelling of the same key (or, if it did, would have to give that string back)
+	for i, k := range keys {
+		if i%3 != 0 && k.alg == 0 {
+			continue
+		}
+		failB := func(what string) {
+			direct = append(direct, c14Direct{"principal-roundtrip", fmt.Sprintf("key %d (alg %d): %s", i, k.alg, what), map[string]any{"alg": k.alg, "signer": hex.EncodeToString(k.sb)}})
+		}
+		buf := append([]byte{}, k.sb...)
+		if s2, err := algDecodeSigner(k.alg, buf); err == nil {
+			for j := range buf {
+				buf[j] = 0
+			}
+			if !bytes.Equal(s2.Encode(), k.sb) || s2.DID() != k.signer.DID() {
+				failB("signer Decode(buf) changed when buf was overwritten afterwards")
+			} else if why := sameSigner(k.signer, s2); why != "" {
+				failB("signer Decode(buf) changed when buf was overwritten afterwards: " + why)
+			}
+		}
+		vbuf := append([]byte{}, k.vb...)
+		if v2, err := algDecodeVerifier(k.alg, vbuf); err == nil {
+			for j := range vbuf {
+				vbuf[j] = 0
+			}
+			if !bytes.Equal(v2.Encode(), k.vb) || v2.DID() != k.signer.Verifier().DID() {
+				failB("verifier Decode(buf) changed when buf was overwritten afterwards")
+			}
+		}
+		// other multibase spellings of the same public key after "did:key:"
+		for _, enc := range []mbase.Encoding{mbase.Base64, mbase.Base64pad, mbase.Base64url, mbase.Base32, mbase.Base16, mbase.Base58Flickr, mbase.Base36} {
+			alt, err := mbase.Encode(enc, k.vb)
+			if err != nil {
+				continue
+			}
+			str := "did:key:" + alt
+			if v, err := algParseVerifier(k.alg, str); err == nil && v != nil && v.DID().String() != str {
+				failB(fmt.Sprintf("verifier Parse accepts %q... (multibase %q) and answers with another DID string: parsing and formatting do not agree", str[:20], string(rune(enc))))
+				break
+			}
+		}
+	}
+
 	// ---- freshly GENERATED signers (the keys above are decoded from seeds / stored key files): what Generate() hands out
 	// is the same value as what its encoding decodes to and its formatted string parses to
 	for alg := 0; alg < 2; alg++ {
